@@ -4,5 +4,6 @@ CONSTANTS
   Seed = 2
 INVARIANT T_Covers
 INVARIANT T_Touching
+INVARIANT T_CubesCover
 INVARIANT EmitC
 CHECK_DEADLOCK FALSE
